@@ -4,4 +4,4 @@ CONSTANTS
   Bug = "none"
   Group = "variant4"
   MaxLen = 0
-INVARIANTS TypeOK LawVariantAssign LawDynamicCast
+INVARIANTS TypeOK LawVariantAssign LawVarAccessors LawDynamicCast
